@@ -256,17 +256,18 @@ def class_c11e(src):
 
 
 def class_blank_mid_expression(src):
-    """a blank line inside an expression that continues over several lines: the next non-blank line starts with `.` or
-    a binary operator, or the previous one ends with an operator / comma / opening bracket / `=`"""
+    """a blank or comment-only line inside an expression that continues over several lines: the next code line starts
+    with `.` or a binary operator, or the previous one ends with an operator / comma / opening bracket / `=`"""
     lines = src.split("\n")
     ops = ("+", "*", "/", "%", "^", "and ", "or ", "==", "!=", "<", ">", "->", "- ")
+    empty = lambda l: G.strip_trivia(l.rstrip("\r")).strip() == ""
     for k in range(1, len(lines) - 1):
-        if lines[k].strip() != "":
+        if not empty(lines[k]):
             continue
         i, j = k - 1, k + 1
-        while i >= 0 and lines[i].strip() == "":
+        while i >= 0 and empty(lines[i]):
             i -= 1
-        while j < len(lines) and lines[j].strip() == "":
+        while j < len(lines) and empty(lines[j]):
             j += 1
         if i < 0 or j >= len(lines):
             continue
